@@ -1,0 +1,71 @@
+// Copyright 2019 The Scriggo Authors. All rights reserved.
+// Use of this source code is governed by a BSD-style
+// license that can be found in the LICENSE file.
+
+//go:build verif
+
+package runtime
+
+import (
+	"reflect"
+	"unsafe"
+)
+
+// Verification hooks (build tag "verif"). They only report events to a tracer
+// installed through package verifbridge. A tracer may block in an event: the
+// "block-*" events are emitted before a potentially blocking operation and
+// are used as scheduler gates by the conformance harness.
+const verifOn = true
+
+// VerifRTTracer, if not nil, receives the run-time events: vm and env
+// identify the virtual machine and the execution environment (shared by the
+// goroutines of one Run); events of one vm arrive in program order.
+var VerifRTTracer func(vm, env uintptr, ev string, a int, b uintptr)
+
+func verifRT(vm *VM, ev string, a int, b uintptr) {
+	if t := VerifRTTracer; t != nil {
+		t(uintptr(unsafe.Pointer(vm)), uintptr(unsafe.Pointer(vm.env)), ev, a, b)
+	}
+}
+
+// verifChanPtr returns the identity of the channel ch (0 for a nil channel).
+func verifChanPtr(ch reflect.Value) uintptr {
+	if !ch.IsValid() || ch.Kind() != reflect.Chan {
+		return 0
+	}
+	return ch.Pointer()
+}
+
+// verifRecvVal encodes a transferred value for the tracer: the value itself
+// if it is a signed integer, 0 otherwise; -1 for a receive from a closed
+// channel.
+func verifRecvVal(v reflect.Value, ok bool) int {
+	if !ok {
+		return -1
+	}
+	if v.IsValid() && v.CanInt() {
+		return int(v.Int())
+	}
+	return 0
+}
+
+func verifSelectDone(vm *VM, chosen int, recv reflect.Value, recvOK bool) {
+	c := vm.cases[chosen]
+	switch c.Dir {
+	case reflect.SelectRecv:
+		verifRT(vm, "select-recv", verifRecvVal(recv, recvOK), verifChanPtr(c.Chan))
+	case reflect.SelectSend:
+		verifRT(vm, "select-send", verifRecvVal(c.Send, true), verifChanPtr(c.Chan))
+	default:
+		verifRT(vm, "select-default", 0, 0)
+	}
+}
+
+func verifArgsPtr(args []reflect.Value) uintptr {
+	if len(args) == 0 {
+		return 0
+	}
+	return uintptr(unsafe.Pointer(&args[0]))
+}
+
+func verifVMPtr(vm *VM) uintptr { return uintptr(unsafe.Pointer(vm)) }
